@@ -8,6 +8,7 @@
 package c08
 
 import (
+	"encoding/base64"
 	"fmt"
 	"sort"
 	"strings"
@@ -44,10 +45,10 @@ type FaultSpec struct {
 
 // Op is one step of a Part-A history.
 type Op struct {
-	Kind string `json:"kind"` // copy | push | manifest | blob | tagdel | mandel | tmp | close | reopen
+	Kind string `json:"kind"` // copy | import | push | manifest | blob | blobdel | tagdel | mandel | tmp | close | reopen
 	Node int    `json:"node"`
 	Blob int    `json:"blob,omitempty"`
-	Tag  int    `json:"tag"` // -1 = by digest, 0..2 = t0..t2, 3 = v1
+	Tag  int    `json:"tag"` // -1 = by digest, 0..2 = t0..t2, 3 = v1, 4 = no tag in the reference (the default tag "latest")
 	// copy
 	From       string     `json:"from,omitempty"` // reg | layout | self (re-tag inside the target layout)
 	SrcByTag   bool       `json:"src_by_tag,omitempty"`
@@ -68,6 +69,10 @@ type Op struct {
 	TagKind int `json:"tag_kind,omitempty"` // 0 the tag, 1 the referrers fallback tag of Node
 	// tmp
 	Name int `json:"name,omitempty"`
+	// reference forms
+	WithDigest bool `json:"with_digest,omitempty"` // copy / push / manifest into a tag: the target reference is tag@digest
+	CloseRef   int  `json:"close_ref,omitempty"`   // close: 0 path:t0, 1 path@digest(Node), 2 path:t0@digest(Node), 3 bare path (default tag)
+	Client     int  `json:"client,omitempty"`      // which of the two client instances runs the operation (sequentially; 0 | 1)
 	// Ctx is the state of the context the operation is called with: 0 live, 1 already cancelled, 2 deadline already
 	// expired, 3 cancelled by another goroutine while the call runs (what `defer rc.Close(ctx, r)` sees after ctrl-c / a timeout)
 	Ctx int `json:"ctx,omitempty"`
@@ -81,7 +86,14 @@ type CaseA struct {
 	Pre    string        `json:"pre"`     // absent | empty | graph | graph-partial
 	Keep   []string      `json:"keep,omitempty"`
 	PreAll bool          `json:"pre_all,omitempty"` // pre-state lists every stored manifest as an untagged entry
-	Ops    []Op          `json:"ops"`
+	// pre-state written "by another tool": ref.name is a full image name, io.containerd.image.name is set, one entry is
+	// listed twice, no entry carries a tag at all
+	PreFullName   bool `json:"pre_full_name,omitempty"`
+	PreContainerd bool `json:"pre_containerd,omitempty"`
+	PreDup        bool `json:"pre_dup,omitempty"`
+	PreUntagged   bool `json:"pre_untagged,omitempty"`
+	PathForm      int  `json:"path_form,omitempty"` // how every reference spells the layout path: 0 absolute, 1 relative to the cwd, 2 ./relative
+	Ops           []Op `json:"ops"`
 }
 
 // StepB is one step of a Part-B worker.
@@ -111,6 +123,7 @@ type CaseB struct {
 	Workers    [][]StepB     `json:"workers"`
 	CloseEvery int           `json:"close_every"` // Close(target) from inside every k-th source request (0 = off)
 	CloseAt    []int         `json:"close_at,omitempty"`
+	PathForm   int           `json:"path_form,omitempty"` // see CaseA.PathForm
 	CloseCtx   []int         `json:"close_ctx,omitempty"` // context states of the closes issued from inside copies (cyclic; empty = live)
 	Delays     []int         `json:"delays,omitempty"`
 	Procs      int           `json:"procs"`
@@ -183,7 +196,12 @@ func genExtras(t *rapid.T, g *imggen.Graph) {
 	labels := map[string]bool{}
 	for i := 0; i < n; i++ {
 		l := fmt.Sprintf("x%d", i)
-		kind := rapid.SampledFrom([]string{"sibling", "sibling", "ref-image", "ref-artifact", "ref-index"}).Draw(t, l+"_kind")
+		kind := rapid.SampledFrom([]string{"sibling", "sibling", "sibling", "ref-image", "ref-image", "ref-artifact", "ref-artifact", "ref-index", "ref-index", "signed-schema1"}).Draw(t, l+"_kind")
+		if kind == "signed-schema1" {
+			addSignedSchema1(g)
+			labels["x-signed-schema1"] = true
+			continue
+		}
 		// some of the extra objects (the manifest itself and the new blobs it names) are addressed by sha512 digests
 		alg := "sha256"
 		if rapid.IntRange(0, 3).Draw(t, l+"_sha512") == 0 {
@@ -203,6 +221,10 @@ func genExtras(t *rapid.T, g *imggen.Graph) {
 				subjDesc = descJSON(s.MediaType, s.Digest, len(s.Body))
 				if s.Subject != "" {
 					labels["x-referrer-of-referrer"] = true
+				}
+				if strings.HasPrefix(s.Digest, "sha512:") {
+					// regclient keeps these under the truncated fallback tag sha512-<first 64 hex digits>
+					labels["x-referrer-of-sha512-subject"] = true
 				}
 			}
 		}
@@ -284,10 +306,31 @@ func genExtras(t *rapid.T, g *imggen.Graph) {
 	sort.Strings(g.Labels)
 }
 
+// addSignedSchema1 adds the fixed signed (pretty-JWS) Docker schema1 manifest: stored under the digest of its payload,
+// its layers are named by fsLayers[].blobSum.
+func addSignedSchema1(g *imggen.Graph) int {
+	body, err := base64.StdEncoding.DecodeString(signedSchema1B64)
+	if err != nil {
+		panic(err)
+	}
+	n := &imggen.Node{Kind: "schema1", MediaType: rm.MTDocker1Sig, Body: body,
+		Blobs: []string{addBlob(g, signedLayerA), addBlob(g, signedLayerB)}}
+	n.Digest = rm.ManifestDigest("sha256", rm.MTDocker1Sig, body)
+	for _, o := range g.Nodes {
+		if o.Digest == n.Digest {
+			return o.ID
+		}
+	}
+	n.ID = len(g.Nodes)
+	g.Nodes = append(g.Nodes, n)
+	return n.ID
+}
+
 func genGraph(t *rapid.T, noMediaType bool) *imggen.Graph {
 	o := imggen.DefaultOptions()
 	o.ExtHost = extHost
 	o.NoMediaType = noMediaType && rapid.IntRange(0, 2).Draw(t, "g_nomt") == 0
+	o.Sha512 = rapid.IntRange(0, 2).Draw(t, "g_sha512") == 0
 	g := imggen.Gen(t, o)
 	genExtras(t, g)
 	return g
@@ -315,9 +358,11 @@ func genFault(t *rapid.T, label string) *FaultSpec {
 // ---- Part A --------------------------------------------------------------------------------------
 
 func genOp(t *rapid.T, nNodes, nBlobs int, system string) Op {
-	kind := rapid.SampledFrom([]string{"copy", "copy", "copy", "copy", "push", "push", "push", "manifest", "blob",
-		"tagdel", "tagdel", "mandel", "mandel", "tmp", "close", "close", "close", "close", "reopen"}).Draw(t, "kind")
-	op := Op{Kind: kind, Node: rapid.IntRange(0, nNodes-1).Draw(t, "node"), Tag: rapid.IntRange(-1, 3).Draw(t, "tag")}
+	kind := rapid.SampledFrom([]string{"copy", "copy", "copy", "copy", "copy", "copy", "copy", "copy", "import", "push", "push", "push", "push", "push", "push",
+		"manifest", "manifest", "blob", "blob", "blobdel", "tagdel", "tagdel", "tagdel", "tagdel", "mandel", "mandel", "mandel", "mandel", "tmp", "tmp",
+		"close", "close", "close", "close", "close", "close", "close", "close", "reopen", "reopen"}).Draw(t, "kind")
+	op := Op{Kind: kind, Node: rapid.IntRange(0, nNodes-1).Draw(t, "node"), Tag: rapid.IntRange(-1, 4).Draw(t, "tag")}
+	op.Client = rapid.SampledFrom([]int{0, 0, 0, 1}).Draw(t, "client")
 	switch kind {
 	case "copy":
 		op.From = rapid.SampledFrom([]string{"reg", "reg", "reg", "reg", "layout", "layout", "self"}).Draw(t, "from")
@@ -353,14 +398,24 @@ func genOp(t *rapid.T, nNodes, nBlobs int, system string) Op {
 		}
 	case "mandel":
 		op.DelOpt = rapid.IntRange(0, 2).Draw(t, "delopt")
+	case "blobdel":
+		if nBlobs > 0 {
+			op.Blob = rapid.IntRange(0, nBlobs-1).Draw(t, "blob")
+		}
 	case "tmp":
-		op.Name = rapid.IntRange(0, 3).Draw(t, "name")
+		op.Name = rapid.IntRange(0, 6).Draw(t, "name")
+	case "close":
+		op.CloseRef = rapid.SampledFrom([]int{0, 0, 0, 1, 2, 3}).Draw(t, "closeref")
+	}
+	switch kind {
+	case "copy", "import", "push", "manifest":
+		op.WithDigest = op.Tag >= 0 && rapid.IntRange(0, 5).Draw(t, "withdigest") == 0
 	}
 	switch kind {
 	case "close":
 		// ~30 % of the closes run with a context that is (or becomes) dead
 		op.Ctx = rapid.SampledFrom([]int{0, 0, 0, 0, 0, 0, 0, 1, 2, 3}).Draw(t, "ctx")
-	case "copy", "push", "manifest", "blob", "tagdel", "mandel":
+	case "copy", "import", "push", "manifest", "blob", "blobdel", "tagdel", "mandel":
 		op.Ctx = rapid.SampledFrom([]int{0, 0, 0, 0, 0, 0, 0, 0, 0, 0, 0, 0, 0, 0, 0, 0, 1, 2, 3}).Draw(t, "ctx")
 	}
 	return op
@@ -381,7 +436,12 @@ func genA(t *rapid.T) Case {
 	}
 	if c.Pre == "graph" || c.Pre == "graph-partial" {
 		c.PreAll = rapid.IntRange(0, 3).Draw(t, "preall") == 0
+		c.PreFullName = rapid.IntRange(0, 4).Draw(t, "prefullname") == 0
+		c.PreContainerd = c.PreFullName && rapid.Bool().Draw(t, "prectrd")
+		c.PreDup = rapid.IntRange(0, 4).Draw(t, "predup") == 0
+		c.PreUntagged = !c.PreFullName && rapid.IntRange(0, 7).Draw(t, "preuntagged") == 0
 	}
+	c.PathForm = rapid.SampledFrom([]int{0, 0, 0, 1, 2}).Draw(t, "pathform")
 	nN, nB := len(c.Graph.Nodes), len(c.Graph.Blobs)
 	n := rapid.IntRange(1, 14).Draw(t, "nops")
 	for i := 0; i < n; i++ {
@@ -457,5 +517,6 @@ func genB(t *rapid.T) Case {
 		c.Delays = append(c.Delays, rapid.IntRange(0, len(delayTable)-1).Draw(t, "delay"))
 	}
 	c.Procs = rapid.SampledFrom([]int{1, 2, 4, 16}).Draw(t, "procs")
+	c.PathForm = rapid.SampledFrom([]int{0, 0, 0, 1, 2}).Draw(t, "pathform")
 	return Case{Part: "B", B: c}
 }
